@@ -697,7 +697,8 @@ pub fn read_zarr(store: Arc<dyn ReadableListableStorageTraits>, h: &Histories, g
 
 /// Store wrapper: counts writes, fails the k-th one, and keeps a snapshot after every write.
 pub struct FaultStore {
-    pub inner: Arc<MemoryStore>,
+    /// the real store: zarrs MemoryStore, or a zarrs FilesystemStore on a per-run scratch directory
+    pub inner: Arc<dyn zarrs::storage::ReadableWritableListableStorageTraits>,
     pub state: Mutex<FaultStoreState>,
 }
 
@@ -717,6 +718,22 @@ impl FaultStore {
             state: Mutex::new(FaultStoreState { fail_at, keep_snapshots, ..Default::default() }),
         }
     }
+    pub fn new_filesystem(dir: &std::path::Path, fail_at: Option<u64>) -> std::result::Result<Self, String> {
+        let fs = zarrs::filesystem::FilesystemStore::new(dir).map_err(|e| format!("{e}"))?;
+        Ok(FaultStore { inner: Arc::new(fs), state: Mutex::new(FaultStoreState { fail_at, keep_snapshots: false, ..Default::default() }) })
+    }
+    /// what a fresh reader sees right now
+    pub fn snapshot(&self) -> Arc<MemoryStore> {
+        let dst = MemoryStore::new();
+        if let Ok(keys) = self.inner.list() {
+            for k in keys {
+                if let Ok(Some(v)) = self.inner.get(&k) {
+                    let _ = dst.set(&k, v);
+                }
+            }
+        }
+        Arc::new(dst)
+    }
     fn before_write(&self) -> std::result::Result<(), zarrs::storage::StorageError> {
         let mut st = self.state.lock().unwrap();
         let k = st.writes;
@@ -731,7 +748,9 @@ impl FaultStore {
         let mut st = self.state.lock().unwrap();
         if st.keep_snapshots {
             let k = st.writes;
-            let snap = snapshot_store(self.inner.as_ref());
+            drop(st);
+            let snap = self.snapshot();
+            let mut st = self.state.lock().unwrap();
             st.snapshots.push((k, snap));
         }
     }
